@@ -139,11 +139,9 @@ func (fv *FuncVerifier) evalClause(st *State, cl *Clause, pos token.Pos, names m
 	for k, v := range fv.ghostTypes {
 		gt[k] = v
 	}
-	for n := range names {
+	for n, t := range fv.loopGhostTypes {
 		if _, ok := gt[n]; !ok {
-			if t, ok := fv.loopGhostTypes[n]; ok {
-				gt[n] = t
-			}
+			gt[n] = t
 		}
 	}
 	cc := checkClause(fv.prog, fv.fn, cl, pos, gt)
@@ -153,11 +151,13 @@ func (fv *FuncVerifier) evalClause(st *State, cl *Clause, pos token.Pos, names m
 	}
 	env := &Env{info: cc.info, spec: true, old: fv.entry, entry: entry, binds: map[types.Object]Term{}}
 	// parameters refer to their entry values (maps: current value)
-	for o, v := range fv.entryParams {
-		if _, isMap := o.Type().Underlying().(*types.Map); isMap {
-			continue
+	if cl.Kind == "ensures" || cl.Kind == "yields" || cl.Kind == "panics" {
+		for o, v := range fv.entryParams {
+			if _, isMap := o.Type().Underlying().(*types.Map); isMap {
+				continue
+			}
+			env.binds[o] = v
 		}
-		env.binds[o] = v
 	}
 	env.oldB = fv.entryParams
 	for n, o := range cc.params {
@@ -260,7 +260,7 @@ func (fv *FuncVerifier) specDefine(fn *types.Func) *specDef {
 	var params []string
 	for iter := 0; iter < 4; iter++ {
 		sub := &FuncVerifier{w: fv.w, prog: fv.prog, fn: fi, info: fi.Pkg.TypesInfo, consts: map[string]Sort{}, loops: map[ast.Stmt]int{}, lits: map[*ast.FuncLit]int{},
-			dropped: map[string]bool{}, externUsed: fv.externUsed, calleesUsed: map[string]bool{}, closureLits: map[*types.Var]*ast.FuncLit{}, specMode: true}
+			dropped: map[string]bool{}, externUsed: fv.externUsed, calleesUsed: map[string]bool{}, closureLits: map[*types.Var]*ast.FuncLit{}, specMode: true, specResSort: sd.res}
 		st := &State{vars: map[types.Object]Term{}, heap: map[string]Term{}, ghost: map[string]Term{}, hmark: map[string]int{}, heapParams: map[string]Sort{}}
 		params = nil
 		for _, f := range fi.Decl.Type.Params.List {
@@ -358,7 +358,7 @@ func (fv *FuncVerifier) pureBody(st *State, env *Env, stmts []ast.Stmt) (Term, s
 		if len(x.Results) != 1 {
 			return Term{}, "spec function must return exactly one value"
 		}
-		return fv.eval(st, env, x.Results[0]), ""
+		return fv.coerce(fv.eval(st, env, x.Results[0]), fv.specResSort), ""
 	case *ast.AssignStmt:
 		if x.Tok == token.DEFINE || x.Tok == token.ASSIGN {
 			fv.execAssign(st, env, x)
@@ -543,7 +543,13 @@ func VerifyFunc(w *World, prog *Program, fi *FuncInfo) *FuncResult {
 		res.Callees = append(res.Callees, d)
 	}
 	sort.Strings(res.Callees)
-	res.BindErrors = fv.bindErrors
+	seenErr := map[string]bool{}
+	for _, e := range fv.bindErrors {
+		if !seenErr[e] {
+			seenErr[e] = true
+			res.BindErrors = append(res.BindErrors, e)
+		}
+	}
 	res.GlobalWrites = fv.globalWrites
 	for _, n := range fv.notes {
 		if strings.HasPrefix(n, "abstracted") {
